@@ -92,8 +92,15 @@ class Lock:
 # --------------------------------------------------------------------------- builds
 
 def source_facts():
+    """Regenerates Constants.v (constants) and Gen.v (functions translated from Rust to Gallina) from REPO's sources."""
     from tools import source_facts as sf
-    return sf.regenerate(REPO, os.path.join(THEORIES, "Constants.v"))
+    from tools import rs2coq
+    facts = sf.regenerate(REPO, os.path.join(THEORIES, "Constants.v"))
+    tr = rs2coq.regenerate(REPO, os.path.join(THEORIES, "Gen.v"))
+    facts["translated_functions"] = tr["translated"]
+    if tr["failed"]:
+        facts["translator_failed"] = tr["failed"]
+    return facts
 
 
 def coq_files():
@@ -367,9 +374,11 @@ def kernel_sample(pid, scripts, model_obs, rng, count):
     """Evaluates run_script INSIDE Coq (vm_compute, kernel reduction) on a seeded sample of the scripts and compares with
     what the extracted OCaml model printed: keeps extraction, ocamlopt and the driver out of the trusted base for the
     sample. Returns (number checked, list of script indices that differ or failed)."""
+    def size(lines):
+        # characters of the Gallina term, roughly: hex tokens count 2 chars per byte, z<n> pattern tokens expand to n bytes
+        return sum(len(o) + sum(2 * int(t[1:]) for t in o.split(" ") if len(t) > 1 and t[0] == "z" and t[1:].isdigit()) for o in lines)
     cand = [i for i, sc in enumerate(scripts)
-            if model_obs[i] is not None and "panic" not in model_obs[i]
-            and sum(len(o) for o in sc["ops"]) + sum(len(o) for o in model_obs[i]) < 12000]
+            if model_obs[i] is not None and "panic" not in model_obs[i] and size(sc["ops"]) + size(model_obs[i]) < 12000]
     if not cand:
         return 0, []
     pick = cand if len(cand) <= count else rng.sample(cand, count)
